@@ -59,7 +59,36 @@ def den(h, n):
 
 SAMEORD = z3.Function('same_ordering', I, I, z3.BoolSort())      # Ordering.__eq__ (uninterpreted)
 OP = z3.Function('boolean_operator', I, z3.BoolSort(), z3.BoolSort(), z3.BoolSort())   # a binary operator passed as a value
-INORD = z3.Function('in_order', I, H, H, z3.BoolSort())                                # Ordering.in_order (uninterpreted)
+POS = z3.Function('position_in_ordering', I, H, I)      # ListOrdering: in_order(x, y) is position(x) < position(y)
+
+
+def INORD(o, a, b):
+    return POS(o, a) < POS(o, b)
+
+
+def resp(h, n):
+    """GHOST: the orderings node n's diagram respects"""
+    return h['b_resp'][n]
+
+
+def above(h, o, v, n):
+    """variable v comes strictly before the variable tested at n (or n is a terminal)"""
+    return z3.Or(term(h, n), INORD(o, v, var(h, n)))
+
+
+def resp_inv(h, exclude=None):
+    """GHOST invariant: a constructed non-terminal respects an ordering iff its variable comes before its
+    children's and the children respect it; terminals respect every ordering"""
+    n = z3.Int('n!rsp')
+    o = z3.Int('o!rsp')
+    ok = z3.And(n >= 0, n < h.alloc, h['b_node'][n]) if exclude is None else z3.And(n >= 0, n < h.alloc, h['b_node'][n], n != exclude)
+    okl = z3.BoolVal(True) if exclude is None else (low(h, n) != exclude)
+    return z3.And(
+        z3.ForAll([n, o], z3.Implies(z3.And(ok, okl, registered(h, n)),
+                                     resp(h, n)[o] == z3.And(above(h, o, var(h, n), low(h, n)), resp(h, low(h, n))[o],
+                                                             above(h, o, var(h, n), high(h, n)), resp(h, high(h, n))[o])),
+                  patterns=[resp(h, n)[o]]),
+        z3.ForAll([n, o], z3.Implies(z3.And(ok, term(h, n)), resp(h, n)[o]), patterns=[resp(h, n)[o]]))
 
 
 def registered(h, n):
@@ -338,7 +367,7 @@ def install(E):
     ext = BddExt()
     E.ext.append(ext)
     common = {'ext': 'bdd'}
-    BT = {'b_var', 'b_low', 'b_high', 'b_fl', 'b_fh', 'b_term', 'b_den', 'b_node'}
+    BT = {'b_var', 'b_low', 'b_high', 'b_fl', 'b_fh', 'b_term', 'b_den', 'b_node', 'b_resp'}
 
     def valid(h, n):
         return z3.And(n >= 0, n < h.alloc, h['b_node'][n])
@@ -401,7 +430,7 @@ def install(E):
                 ('self_unregistered', z3.ForAll([m], z3.Implies(z3.And(valid(h, m), m != s_), z3.And(z3.Not(fl(h, m)[s_]), z3.Not(fh(h, m)[s_]))))),
                 ('self_is_a_non_terminal', z3.Not(term(h, s_))),
                 ('no_isomorph', z3.ForAll([m], z3.Implies(z3.And(valid(h, m), m != s_, registered(h, m)), z3.Not(triple(h, m, c.var.t, lo, hi))))),
-                ('ghost_denotations', den_inv(h, exclude=s_))]
+                ('ghost_denotations', den_inv(h, exclude=s_)), ('ghost_orderings', resp_inv(h, exclude=s_))]
 
     def reset_ens(c):
         h0, h1, s_, lo, hi = c.h0, c.h1, c.self.t, c.low.t, c.high.t
@@ -417,6 +446,7 @@ def install(E):
                                                                   high(h1, n) == high(h0, n), term(h1, n) == term(h0, n))))),
             ('ghost_denotations', den_inv(h1)),
             ('ghost_denotation_of_self', shannon(h1, s_, c.var.t, lo, hi)),
+            ('ghost_orderings', resp_inv(h1)),
         ]
 
     def shannon(h, n, v, lo, hi):
@@ -430,7 +460,11 @@ def install(E):
         D = hp.fresh('den_of_new_node', z3.ArraySort(hp.SetH, z3.BoolSort()))
         sg = z3.Const('sigma!gh', hp.SetH)
         p.pc.append(z3.ForAll([sg], D[sg] == z3.If(sg[c.var.t], den(h, hi)[sg], den(h, lo)[sg]), patterns=[D[sg]]))
-        p.heap = h.with_(b_den=z3.Store(h['b_den'], s_, D))
+        Rr = hp.fresh('orderings_of_new_node', z3.ArraySort(I, z3.BoolSort()))
+        o_ = z3.Int('o!gh')
+        p.pc.append(z3.ForAll([o_], Rr[o_] == z3.And(above(h, o_, c.var.t, lo), resp(h, lo)[o_], above(h, o_, c.var.t, hi), resp(h, hi)[o_]),
+                              patterns=[Rr[o_]]))
+        p.heap = h.with_(b_den=z3.Store(h['b_den'], s_, D), b_resp=z3.Store(h['b_resp'], s_, Rr))
 
     def reg_clause(c, comp, child):
         h0, h1, s_ = c.h0, c.h1, c.self.t
@@ -447,6 +481,11 @@ def install(E):
         h0, h1, s_ = c.h0, c.h1, c.self.t
         n = R()
         return hp.FA([n], z3.Implies(z3.And(n != s_, n >= 0, n < h0.alloc), den(h1, n) == den(h0, n)), [den(h1, n)])
+
+    def resp_kept(c):
+        h0, h1, s_ = c.h0, c.h1, c.self.t
+        n = R()
+        return hp.FA([n], z3.Implies(z3.And(n != s_, n >= 0, n < h0.alloc), resp(h1, n) == resp(h0, n)), [resp(h1, n)])
 
     def old_registered(c):
         h0, h1, s_ = c.h0, c.h1, c.self.t
@@ -466,7 +505,7 @@ def install(E):
     def reset_frame(c):
         from .contracts_graph import frame
         s_, lo, hi = c.self.t, c.low.t, c.high.t
-        return frame(c.h0, c.h1, c.h0.alloc, {'b_var': lambda r: r == s_, 'b_low': lambda r: r == s_, 'b_high': lambda r: r == s_, 'b_den': lambda r: r == s_,
+        return frame(c.h0, c.h1, c.h0.alloc, {'b_var': lambda r: r == s_, 'b_low': lambda r: r == s_, 'b_high': lambda r: r == s_, 'b_den': lambda r: r == s_, 'b_resp': lambda r: r == s_,
                                               'b_fl': lambda r: z3.Or(r == s_, r == lo), 'b_fh': lambda r: z3.Or(r == s_, r == hi)})
 
     def reset_may_write(c, comp, ref):
@@ -483,14 +522,15 @@ def install(E):
         'BDDNonTerminalNode.__reset__', 'bdd', [('self', 'bnode'), ('var', 'H'), ('low', 'bnode'), ('high', 'bnode')], ret='none',
         requires=reset_req, ensures=reset_ens, frame=reset_frame, may_write=reset_may_write,
         touches=set(BT), hints=dict(common, cuts={'ensures:table_invariant': reset_cuts(),
-                                           'ensures:ghost_denotations': reset_cuts() + [lambda c, path: den_kept(c), lambda c, path: old_registered(c)]},
+                                           'ensures:ghost_denotations': reset_cuts() + [lambda c, path: den_kept(c), lambda c, path: old_registered(c)],
+                                           'ensures:ghost_orderings': reset_cuts() + [lambda c, path: resp_kept(c), lambda c, path: old_registered(c)]},
                                     ghost_exit=reset_ghost), owner='C16'), FILE)
 
     # -- BDDNonTerminalNode.__new__ -----------------------------------------------------------
     def new_req(c):
         h = c.h0
         return [('table_invariant', inv(h)), ('low_valid', valid(h, c.low.t)), ('high_valid', valid(h, c.high.t)),
-                ('ghost_denotations', den_inv(h)), ('children_are_nodes', children_ok(h)),
+                ('ghost_denotations', den_inv(h)), ('ghost_orderings', resp_inv(h)), ('children_are_nodes', children_ok(h)),
                 ('operands_are_nodes', z3.And(node_ok(h, c.low.t), node_ok(h, c.high.t)))]
 
     def new_ens(c):
@@ -502,11 +542,13 @@ def install(E):
             ('the_node_with_the_triple', z3.Implies(lo != hi, z3.And(valid(h1, r), registered(h1, r), triple(h1, r, c.var.t, lo, hi)))),
             ('old_nodes_kept', z3.ForAll([n], z3.Implies(valid(h0, n), z3.And(var(h1, n) == var(h0, n), low(h1, n) == low(h0, n),
                                                                              high(h1, n) == high(h0, n), term(h1, n) == term(h0, n),
-                                                                             h1['b_node'][n], den(h1, n) == den(h0, n), val(h1, n) == val(h0, n))))),
+                                                                             h1['b_node'][n], den(h1, n) == den(h0, n), val(h1, n) == val(h0, n),
+                                                                             resp(h1, n) == resp(h0, n))))),
             ('old_registrations_kept', z3.ForAll([m, n], z3.Implies(z3.And(valid(h0, m), valid(h0, n)),
                                                                     z3.And(fl(h1, m)[n] == fl(h0, m)[n], fh(h1, m)[n] == fh(h0, m)[n])))),
             ('ghost_denotations', den_inv(h1)),
             ('ghost_denotes_the_shannon_expansion', shannon(h1, r, c.var.t, lo, hi)),
+            ('ghost_orderings', resp_inv(h1)),
             ('children_are_nodes', children_ok(h1)),
             ('result_is_a_node', node_ok(h1, r)),
             ('old_nodes_stay_nodes', z3.ForAll([n], z3.Implies(node_ok(h0, n), node_ok(h1, n)), patterns=[low(h1, n)])),
@@ -529,14 +571,16 @@ def install(E):
     DT = set(BT) | {'rd_dom', 'rd_val', 'b_val'}
 
     def node_state(h):
-        return [('table_invariant', inv(h)), ('ghost_denotations', den_inv(h)), ('children_are_nodes', children_ok(h))]
+        return [('table_invariant', inv(h)), ('ghost_denotations', den_inv(h)), ('ghost_orderings', resp_inv(h)),
+                ('children_are_nodes', children_ok(h))]
 
     def nodes_kept(h0, h1):
         """constructed nodes stay as they are: fields, constants, denotations, registrations among old objects"""
         m, n = R('m'), R()
         return [('old_nodes_kept', z3.ForAll([n], z3.Implies(valid(h0, n), z3.And(
                     var(h1, n) == var(h0, n), low(h1, n) == low(h0, n), high(h1, n) == high(h0, n), term(h1, n) == term(h0, n),
-                    val(h1, n) == val(h0, n), den(h1, n) == den(h0, n), h1['b_node'][n])), patterns=[den(h1, n)])),
+                    val(h1, n) == val(h0, n), den(h1, n) == den(h0, n), resp(h1, n) == resp(h0, n), h1['b_node'][n])),
+                                             patterns=[den(h1, n)])),
                 ('old_nodes_stay_nodes', z3.ForAll([n], z3.Implies(node_ok(h0, n), node_ok(h1, n)), patterns=[low(h1, n)])),
                 ('alloc', h1.alloc >= h0.alloc)]
 
@@ -552,11 +596,25 @@ def install(E):
         note='ASSUMED: returns the terminal node of the Boolean value (one per value, kept in the class-level dictionary Tnodes, '
              'which is not modelled); constructed nodes are left as they are'), FILE)
 
+    VV = z3.Const('v!top', H)
+    OO = z3.Int('o!any')
+
+    def ord_ok(h, o, ins, r, cond=None):
+        """orderedness transfer: if the inputs respect ordering o (and `cond`), so does the result, and no
+        variable that comes before the tops of all inputs comes at or after the top of the result"""
+        hyp = z3.And([resp(h, i)[o] for i in ins] + ([cond] if cond is not None else []))
+        return z3.Implies(hyp, z3.And(resp(h, r)[o],
+                                      z3.ForAll([VV], z3.Implies(z3.And([above(h, o, VV, i) for i in ins]), above(h, o, VV, r)))))
+
+    def ord_ok_all(h, i, r):
+        """... for every ordering"""
+        return z3.ForAll([OO], ord_ok(h, OO, [i], r), patterns=[resp(h, r)[OO], resp(h, i)[OO]])
+
     # -- __invert__ (both classes, one specification) ---------------------------------------------------------
     def inv_cache_ok(h, d):
         k = R('k')
         return z3.ForAll([k], z3.Implies(h['rd_dom'][d][k], z3.And(
-            node_ok(h, k), node_ok(h, h['rd_val'][d][k]),
+            node_ok(h, k), node_ok(h, h['rd_val'][d][k]), ord_ok_all(h, k, h['rd_val'][d][k]),
             z3.ForAll([SG], den(h, h['rd_val'][d][k])[SG] == z3.Not(den(h, k)[SG])))), patterns=[h['rd_dom'][d][k]])
 
     def cache_of(c):
@@ -579,6 +637,7 @@ def install(E):
         return node_state(h1) + nodes_kept(h0, h1) + [
             ('result_is_a_node', node_ok(h1, r)),
             ('denotes_the_complement', z3.ForAll([SG], den(h1, r)[SG] == z3.Not(den(h1, c.self.t)[SG]), patterns=[den(h1, r)[SG]])),
+            ('ordered_result', ord_ok_all(h1, c.self.t, r)),
             ('cache_entries_are_complements', z3.Implies(given, inv_cache_ok(h1, d)))]
 
     def cache_frame(cache_ref_of):
@@ -615,7 +674,7 @@ def install(E):
     def r_cache_ok(h, d, c):
         k = R('k')
         return z3.ForAll([k], z3.Implies(h['rd_dom'][d][k], z3.And(
-            node_ok(h, k), node_ok(h, h['rd_val'][d][k]),
+            node_ok(h, k), node_ok(h, h['rd_val'][d][k]), ord_ok_all(h, k, h['rd_val'][d][k]),
             z3.ForAll([SG], den(h, h['rd_val'][d][k])[SG] == den(h, k)[upd(SG, c)]))), patterns=[h['rd_dom'][d][k]])
 
     def rcache_of(c):
@@ -631,6 +690,7 @@ def install(E):
         return node_state(h1) + nodes_kept(h0, h1) + [
             ('result_is_a_node', node_ok(h1, r)),
             ('denotes_the_cofactor', z3.ForAll([SG], den(h1, r)[SG] == den(h1, c.bdd.t)[upd(SG, c)], patterns=[den(h1, r)[SG]])),
+            ('ordered_result', ord_ok_all(h1, c.bdd.t, r)),
             ('cache_entries_are_cofactors', r_cache_ok(h1, c.r_cache.t, c))]
 
     for fn in ('cache_restrict', 'compute_restrict'):
@@ -640,24 +700,28 @@ def install(E):
             touches=set(DT), hints=dict(common), owner='C17'), FILE)
 
     # -- apply / compute / the three decompositions ----------------------------------------------------------------
-    def a_cache_ok(h, d, op):
+    def a_cache_ok(h, d, op, o=None):
         a, b = R('a'), R('b')
         e = h['rd_val'][d][a]
         a2 = R('a2')
-        return z3.And(
+        extra = []
+        if o is not None:
+            extra = [z3.ForAll([a, b], z3.Implies(z3.And(h['rd_dom'][d][a], h['rd_dom'][e][b]), ord_ok(h, o, [a, b], h['rd_val'][e][b])),
+                               patterns=[z3.MultiPattern(h['rd_dom'][d][a], h['rd_dom'][e][b])])]
+        return z3.And(extra + [
             z3.ForAll([a], z3.Implies(h['rd_dom'][d][a], z3.And(e >= 0, e < h.alloc, e != d)), patterns=[h['rd_dom'][d][a]]),
             z3.ForAll([a, a2], z3.Implies(z3.And(h['rd_dom'][d][a], h['rd_dom'][d][a2], a != a2),
                                           h['rd_val'][d][a] != h['rd_val'][d][a2])),
             z3.ForAll([a, b], z3.Implies(z3.And(h['rd_dom'][d][a], h['rd_dom'][e][b]), z3.And(
                 node_ok(h, a), node_ok(h, b), node_ok(h, h['rd_val'][e][b]),
                 z3.ForAll([SG], den(h, h['rd_val'][e][b])[SG] == OP(op, den(h, a)[SG], den(h, b)[SG])))),
-                patterns=[z3.MultiPattern(h['rd_dom'][d][a], h['rd_dom'][e][b])]))
+                patterns=[z3.MultiPattern(h['rd_dom'][d][a], h['rd_dom'][e][b])])])
 
     def apply_req(c):
         h = c.h0
         return node_state(h) + [('A_is_a_node', node_ok(h, c.A.t)), ('B_is_a_node', node_ok(h, c.B.t)),
                                 ('cache_valid', z3.And(c.r_cache.t >= 0, c.r_cache.t < h.alloc)),
-                                ('cache_entries_are_results', a_cache_ok(h, c.r_cache.t, c.operator.t))]
+                                ('cache_entries_are_results', a_cache_ok(h, c.r_cache.t, c.operator.t, c.ordering.t))]
 
     def apply_ens(c):
         h0, h1, r = c.h0, c.h1, c.res.t
@@ -665,7 +729,8 @@ def install(E):
             ('result_is_a_node', node_ok(h1, r)),
             ('denotes_the_combination', z3.ForAll([SG], den(h1, r)[SG] == OP(c.operator.t, den(h1, c.A.t)[SG], den(h1, c.B.t)[SG]),
                                                   patterns=[den(h1, r)[SG]])),
-            ('cache_entries_are_results', a_cache_ok(h1, c.r_cache.t, c.operator.t)),
+            ('cache_entries_are_results', a_cache_ok(h1, c.r_cache.t, c.operator.t, c.ordering.t)),
+            ('ordered_result', ord_ok(h1, c.ordering.t, [c.A.t, c.B.t], r, c.k.hints.get('ord_cond', lambda c_: None)(c))),
             ('cache_rows_kept', z3.ForAll([R('a')], z3.BoolVal(True)) if False else cache_rows_kept(h0, h1, c.r_cache.t))]
 
     def cache_rows_kept(h0, h1, d):
@@ -700,10 +765,12 @@ def install(E):
                                ('same_variable', var(c.h0, c.A.t) == var(c.h0, c.B.t))]                 # noqa
         else:
             extra = lambda c: []                                                                          # noqa
+        ord_cond = {'BDDsons_and_BDD': lambda c: above(c.h0, c.ordering.t, var(c.h0, c.A.t), c.B.t),
+                    'BDD_and_BDDsons': lambda c: above(c.h0, c.ordering.t, var(c.h0, c.B.t), c.A.t)}.get(fn, lambda c: None)
         E.register(Contract(
             fn, 'bdd', APARAMS, ret='bnode',
             requires=lambda c, extra=extra: apply_req(c) + extra(c), ensures=apply_ens, frame=apply_frame, may_write=apply_may_write,
-            touches=set(DT), hints=dict(common, dict_kind_default='refdict', may_raise=('RuntimeError',)),
+            touches=set(DT), hints=dict(common, dict_kind_default='refdict', may_raise=('RuntimeError',), ord_cond=ord_cond),
             raise_unchanged=False, owner='C17'), FILE)
 
     # =====================================================================================================
